@@ -251,6 +251,10 @@ Fixpoint hist_ok (prev : reading) (l : list (N * fate * reading)) : bool :=
       (reading_eqb r (RVal v) || (negb (fate_eqb f Done) && reading_eqb r prev)) && hist_ok r l'
   end.
 
+(* every store completes and is followed by reads: each read returns the value stored last *)
+Definition reads_ok (l : list (N * reading)) : bool :=
+  forallb (fun x => reading_eqb (snd x) (RVal (fst x))) l.
+
 Definition decode (val : N -> bytes) (r : reading) : option bytes :=
   match r with RVal v => Some (val v) | ROther => None end.
 
